@@ -1350,7 +1350,13 @@ struct RtHarness : Harness
                 char b[96];
                 if (k == 0)
                     ops.push_back("state");
-                else if (k == 1)
+                else if (k == 1 && g.chance(0.5)) {
+                    // the remaining read-only calls of the public API
+                    snprintf(b, sizeof(b), "%s s=%d",
+                             g.chance(0.5) ? "shape" : "waiting",
+                             (int)g.below(2));
+                    ops.push_back(b);
+                } else if (k == 1)
                     ops.push_back("getcfg");
                 else if (k == 2) {
                     snprintf(b, sizeof(b), "trig s=%d n=%d gap=%d",
@@ -1842,6 +1848,15 @@ struct RtHarness : Harness
                 struct AcquirePropertyMetadata meta;
                 memset(&meta, 0, sizeof(meta));
                 acquire_get_configuration_metadata(w->rt, &meta);
+            } else if (op.name == "shape") {
+                struct ImageShape shp;
+                memset(&shp, 0, sizeof(shp));
+                acquire_get_shape(w->rt, (uint32_t)(op.i("s") % 2), &shp);
+                probe("n.get_shape_calls");
+            } else if (op.name == "waiting") {
+                acquire_bytes_waiting_to_be_written_to_disk(
+                  w->rt, (uint32_t)(op.i("s") % 2));
+                probe("n.bytes_waiting_calls");
             } else if (op.name == "mon_wait") {
                 // the client waits until its monitoring loop has done the
                 // maps it wanted (a loop without a bound is left alone)
